@@ -241,9 +241,21 @@ def unroll_array_loops(blocks, locals_, max_len=4):
         if al is None:
             continue
         ds = _defs_of(blocks, al)
-        if len(ds) != 1 or ds[0][1] != 'stmt' or ds[0][2]['rv'].get('k') != 'agg' or ds[0][2]['rv'].get('agg') != 'array':
+        for _hop in range(4):   # the collection may have travelled through plain moves (an argument of an inlined helper)
+            if len(ds) == 1 and ds[0][1] == 'stmt' and ds[0][2]['rv'].get('k') == 'use' and _plain_local(ds[0][2]['rv']['op']) is not None \
+                    and ds[0][2]['rv']['op']['k'] == 'move':
+                ds = _defs_of(blocks, _plain_local(ds[0][2]['rv']['op']))
+            else:
+                break
+        once_call = None
+        if len(ds) == 1 and ds[0][1] == 'call' and (ds[0][2].get('callee') or {}).get('def') in ('std::iter::once', 'core::iter::once') \
+                and len(ds[0][2]['args']) == 1 and ds[0][2].get('target') is not None:
+            once_call = ds[0]       # `iter::once(x)`: exactly one item, x
+            ops = [ds[0][2]['args'][0]]
+        elif len(ds) != 1 or ds[0][1] != 'stmt' or ds[0][2]['rv'].get('k') != 'agg' or ds[0][2]['rv'].get('agg') != 'array':
             continue
-        ops = ds[0][2]['rv']['ops']
+        else:
+            ops = ds[0][2]['rv']['ops']
         if not (1 <= len(ops) <= max_len):
             continue
         # follow the iterator local through plain moves to the loop head: `_r = &mut it; _n = next(_r)`
@@ -323,6 +335,8 @@ def unroll_array_loops(blocks, locals_, max_len=4):
         blk['term'] = {'k': 'goto', 'target': entries[0]}
         # the array itself is gone: its elements are handed to the copies directly (they must not be consumed twice)
         agg_stmt = ds[0][2]
+        if once_call is not None:
+            blocks[once_call[0]]['term'] = {'k': 'goto', 'target': once_call[2]['target']}
         op_locals = set(o['place']['local'] for o in ops if o.get('k') in ('move', 'copy') and not o['place']['proj'])
         for b_ in blocks:
             # .. and their storage must outlive the place where the array used to swallow them
